@@ -15,7 +15,49 @@ INCLUDES = ["-I" + os.path.join(VERIF, "contracts"), "-I" + os.path.join(REPO, "
 
 
 import threading
-CBMC_SLOTS = threading.BoundedSemaphore(int(os.environ.get("VERIF_JOBS", "16")))   # at most this many solver processes at a time
+
+
+class Budget:
+    """at most VERIF_JOBS solver processes and at most VERIF_MEM_GB gigabytes of estimated resident memory at a time
+    (a Hello instance peaks at 17.5 GB: three of them next to the dispatcher shards got the run OOM-killed)"""
+
+    def __init__(self, jobs, mem):
+        self.jobs, self.mem = jobs, mem
+        self.cv = threading.Condition()
+
+    def acquire(self, gb):
+        gb = min(gb, self.mem_total)
+        with self.cv:
+            while self.jobs < 1 or self.mem < gb:
+                self.cv.wait()
+            self.jobs -= 1
+            self.mem -= gb
+        return gb
+
+    def release(self, gb):
+        with self.cv:
+            self.jobs += 1
+            self.mem += gb
+            self.cv.notify_all()
+
+
+BUDGET = Budget(int(os.environ.get("VERIF_JOBS", "16")), float(os.environ.get("VERIF_MEM_GB", "52")))
+BUDGET.mem_total = BUDGET.mem
+
+
+class _Slot:
+    def __init__(self, gb):
+        self.gb = gb
+
+    def __enter__(self):
+        self.got = BUDGET.acquire(self.gb)
+
+    def __exit__(self, *a):
+        BUDGET.release(self.got)
+
+
+def CBMC_SLOT(h):
+    return _Slot(float(h.get("mem_est_gb", 3)))
 
 
 class Undecided(Exception):
@@ -223,7 +265,7 @@ def build_and_run(h, tier, workroot, keep=False):
             cmd = list(cb)
             for n in lst:
                 cmd += ["--property", n]
-            with CBMC_SLOTS:
+            with CBMC_SLOT(h):
                 return sh(cmd, cwd=wd, timeout=tmo, mem_gb=h.get("mem_gb", 24))
         while True:
             with ThreadPoolExecutor(max_workers=nshards) as ex:
@@ -240,16 +282,16 @@ def build_and_run(h, tier, workroot, keep=False):
                 return res
             outs.append((rc, out, err))
     else:
-        with CBMC_SLOTS:
+        with CBMC_SLOT(h):
             rc, out, err, w = sh(cb, cwd=wd, timeout=tmo, mem_gb=h.get("mem_gb", 24))
         # DFCC keeps sets indexed by object id (2^object-bits entries): use the smallest width that fits
         while "too many addressed objects" in (out + err) and int(cb[ob_idx + 1]) < 14:
             cb[ob_idx + 1] = str(int(cb[ob_idx + 1]) + 2)
-            with CBMC_SLOTS:
+            with CBMC_SLOT(h):
                 rc, out, err, w = sh(cb, cwd=wd, timeout=tmo, mem_gb=h.get("mem_gb", 24))
         res["cmds"].append(" ".join(cb))
         if rc == -9:
-            res["undecided"] = "cbmc timeout after %ds" % tmo
+            res["undecided"] = ("cbmc timeout after %ds" % tmo) if err == "TIMEOUT" else "cbmc killed (memory limit %s GB?)" % h.get("mem_gb", 24)
             return res
         outs.append((rc, out, err))
     res["wall"] += w; res["solver_wall"] = w
@@ -541,7 +583,7 @@ def report(pid, tier, seed, pdef, hs, results, extra_results, known, floors, wor
                             "checker_cmds": r["cmds"], "bounded": h.get("bounded")})
         if h.get("bounded"):
             bounded.append("%s: %s" % (hn, h["bounded"]))
-        for o in mine[:3]:
+        for o in sorted(mine, key=lambda x: 0 if x["kind"] in ("spec", "contract") else 1)[:3]:
             samples.append({"harness": hn, "obligation": o["name"], "tag": o["tag"], "kind": o["kind"],
                             "description": o["desc"][:160], "at": "%s:%d" % (os.path.basename(o["file"]), o["line"]),
                             "status": o["status"]})
@@ -563,7 +605,7 @@ def report(pid, tier, seed, pdef, hs, results, extra_results, known, floors, wor
 
     # ---- violations: replay
     import glob
-    for old in glob.glob(os.path.join(VERIF, "replays", pid + "-*.json")):
+    for old in ([] if os.environ.get("VERIF_NO_REPLAY_CLEAN") else glob.glob(os.path.join(VERIF, "replays", pid + "-*.json"))):
         try:
             os.remove(old)
         except OSError:
